@@ -57,8 +57,9 @@ pub struct TranslateCase {
     pub prefer_dead: bool,
 }
 
-fn sort_key_of(d: &DocDump) -> u64 {
-    d.fast.iter().find(|(n, _)| n == "sortkey").and_then(|(_, v)| v.first()).and_then(|s| s.parse().ok()).unwrap_or(0)
+/// None = the document has no sort value (kept first in an ascending, last in a descending segment: `None < Some`)
+fn sort_key_of(d: &DocDump) -> Option<u64> {
+    d.fast.iter().find(|(n, _)| n == "sortkey").and_then(|(_, v)| v.first()).and_then(|s| s.parse().ok())
 }
 
 pub struct Translate;
@@ -219,7 +220,7 @@ impl Sub for Translate {
                 Some(asc) => {
                     for wdw in m.docs.windows(2) {
                         let (a, b) = (sort_key_of(&wdw[0]), sort_key_of(&wdw[1]));
-                        ensure!(if asc { a <= b } else { a >= b }, "merged_segment_not_sorted", "keys {a} then {b} (asc={asc})");
+                        ensure!(if asc { a <= b } else { a >= b }, "merged_segment_not_sorted", "keys {a:?} then {b:?} (asc={asc}; None = no value: first when ascending, last when descending)");
                     }
                     let mut exp: BTreeMap<u64, &DocDump> = BTreeMap::new();
                     for i in &chosen {
